@@ -166,6 +166,12 @@ Definition api_search (k : N) (passes fuel : nat) (root : board) := Search.searc
 Fixpoint tf_rep (reps : nat) (b : board) : threefold :=
   match reps with O => [] | S n => fst (tf_add (tf_rep n b) b) end.
 Definition api_search_tf (k : N) (reps passes fuel : nat) (root : board) := Search.search k (tf_rep reps root) passes fuel root.
+(* every position one legal move below the root already stands `reps` times in the table *)
+Fixpoint tf_add_n (reps : nat) (tf : threefold) (b : board) : threefold :=
+  match reps with O => tf | S n => fst (tf_add (tf_add_n n tf b) b) end.
+Definition tf_children (reps : nat) (root : board) : threefold :=
+  fold_left (fun tf m => tf_add_n reps tf (apply root m)) (legals root) [].
+Definition api_search_tfc (k : N) (reps passes fuel : nat) (root : board) := Search.search k (tf_children reps root) passes fuel root.
 Definition api_nat_of_N := N.to_nat.
 Definition api_score_neg2 := Score.neg.
 
